@@ -48,9 +48,30 @@ type SliceV struct {
 type MapV struct {
 	obj  int   // 0 => nil map
 	nilG *Term // for obj != 0: condition under which this value is the nil map (nil pointer = never)
+	more []MapAlt // further alternatives: under more[i].g (pairwise exclusive, taking precedence over obj) the value is map object more[i].obj
 }
 
-func (m MapV) isNil() *Term {
+type MapAlt struct {
+	g   *Term
+	obj int
+}
+
+// alts returns all (guard, object) alternatives of a map value (guards pairwise exclusive; the
+// remainder is the nil map).
+func (m MapV) alts() []MapAlt {
+	var out []MapAlt
+	rest := True
+	for _, al := range m.more {
+		out = append(out, MapAlt{And(rest, al.g), al.obj})
+		rest = And(rest, Not(al.g))
+	}
+	if m.obj != 0 {
+		out = append(out, MapAlt{And(rest, Not(m.isNilPrimary())), m.obj})
+	}
+	return out
+}
+
+func (m MapV) isNilPrimary() *Term {
 	if m.obj == 0 {
 		return True
 	}
@@ -58,6 +79,14 @@ func (m MapV) isNil() *Term {
 		return False
 	}
 	return m.nilG
+}
+
+func (m MapV) isNil() *Term {
+	c := True
+	for _, al := range m.alts() {
+		c = And(c, Not(al.g))
+	}
+	return c
 }
 type MapEntry struct {
 	key     Value
@@ -188,7 +217,7 @@ func valEq(a, b Value) *Term {
 		return And(cs...)
 	case MapV:
 		y := b.(MapV)
-		if x.obj != 0 && y.obj != 0 {
+		if len(x.more) == 0 && len(y.more) == 0 && x.obj != 0 && y.obj != 0 {
 			return BoolC(x.obj == y.obj)
 		}
 		return And(x.isNil(), y.isNil())
@@ -298,14 +327,29 @@ func iteVal(c *Term, a, b Value) Value {
 		return r
 	case MapV:
 		y := b.(MapV)
-		switch {
-		case x.obj == y.obj:
-			return MapV{obj: x.obj, nilG: Ite(c, x.isNil(), y.isNil())}
-		case x.obj == 0:
-			return MapV{obj: y.obj, nilG: Ite(c, True, y.isNil())}
-		case y.obj == 0:
-			return MapV{obj: x.obj, nilG: Ite(c, x.isNil(), True)}
+		if len(x.more) == 0 && len(y.more) == 0 {
+			switch {
+			case x.obj == y.obj:
+				return MapV{obj: x.obj, nilG: Ite(c, x.isNil(), y.isNil())}
+			case x.obj == 0:
+				return MapV{obj: y.obj, nilG: Ite(c, True, y.isNil())}
+			case y.obj == 0:
+				return MapV{obj: x.obj, nilG: Ite(c, x.isNil(), True)}
+			}
 		}
+		// different map objects: a guarded union (x's alternatives under c take precedence)
+		r := MapV{obj: y.obj, nilG: y.nilG}
+		for _, al := range x.alts() {
+			r.more = append(r.more, MapAlt{And(c, al.g), al.obj})
+		}
+		// under c and x nil the value is nil: encode by guarding y's alternatives with !c
+		for _, al := range y.more {
+			r.more = append(r.more, MapAlt{And(Not(c), al.g), al.obj})
+		}
+		if y.obj != 0 {
+			r.nilG = Or(c, y.isNilPrimary())
+		}
+		return r
 	case MapData:
 		y := b.(MapData)
 		// slots with an identical key are merged slot-wise; the others are kept side by side, present
